@@ -9,7 +9,7 @@ EXTENDS Integers, Sequences, FiniteSets, Json, TLC
 CONSTANTS TraceFile, Deviations
 TraceLog == ndJsonDeserialize(TraceFile)
 
-W == 1..8
+W == 1..24
 VARIABLES l,
           added, tab, rq,     \* waiter -> added?, table, requested revision
           cancelled,          \* waiter -> context ended
@@ -72,12 +72,25 @@ TObs ==
        /\ (added[w] /\ cancelled[w] /\ sweeps[w] >= 2 /\ errs[w] = 0 /\ oks[w] = 0 => a \in {1, 2})
   /\ UNCHANGED <<added, tab, rq, cancelled, seen, errs, oks, sweeps, applied, early>>
 
+\* ---- ForwardingKVServer layer: a write forwarded to the leader came back with revision Ev.r; the follower's API call
+\* may only return once this node has applied a leader index >= r (read-your-writes on the follower)
+TFwd == /\ IsEvent("fwd") /\ ~added[Ev.w]
+        /\ added' = [added EXCEPT ![Ev.w] = TRUE] /\ tab' = [tab EXCEPT ![Ev.w] = Ev.t] /\ rq' = [rq EXCEPT ![Ev.w] = Ev.r]
+        /\ early' = [early EXCEPT ![Ev.w] = applied[Ev.t] >= Ev.r]
+        /\ UNCHANGED <<cancelled, seen, errs, oks, sweeps, applied>>
+\* {"ev":"fwdobs","w":w,"returned":bool,"err":""}
+TFwdObs ==
+  /\ IsEvent("fwdobs")
+  /\ (Ev.returned /\ Ev.err = "" => seen[Ev.w] >= rq[Ev.w] \/ early[Ev.w])       \* acknowledged => already applied here
+  /\ (~Ev.returned => ~(seen[Ev.w] >= rq[Ev.w]))                                   \* applied => answered
+  /\ UNCHANGED <<added, tab, rq, cancelled, seen, errs, oks, sweeps, applied, early>>
+
 TReset == /\ IsEvent("reset") /\ added' = [w \in W |-> FALSE] /\ tab' = [w \in W |-> ""] /\ rq' = [w \in W |-> 0]
           /\ cancelled' = [w \in W |-> FALSE] /\ seen' = [w \in W |-> -1]
           /\ errs' = [w \in W |-> 0] /\ oks' = [w \in W |-> 0] /\ sweeps' = [w \in W |-> 0]
           /\ applied' = [x \in Tabs |-> -1] /\ early' = [w \in W |-> FALSE]
 
-TNext == TAdd \/ TCancel \/ TNotify \/ TSweep \/ TRead \/ TObs \/ TReset
+TNext == TFwd \/ TFwdObs \/ TAdd \/ TCancel \/ TNotify \/ TSweep \/ TRead \/ TObs \/ TReset
 TSpec == TInit /\ [][TNext]_vars
 
 TraceAccepted ==
